@@ -6,6 +6,9 @@ Lean model (Model/Grid.lean).  predicate: exact-rational reading of the property
 object re-use: the underlier of an existing derivative replaced (attribute assignment / re-registration) and simulated again;
 every feature step by step incl. negative steps (get(i) = column i of get(None)), FeatureList.get / Hedger.get_input likewise, the
 TimeToMaturity feature against the replica (op "ttm").
+histories of objects (replaced underliers, two-underlier derivatives, listed derivative / other owner, mixed histories with different step
+sizes) against the model of the grid over a system of instruments (Model/GridSys.lean, op "grid_sys", theorems Lemmas/C13System.lean):
+object identity of every accessor, shapes of all buffers of all primaries, of time to maturity / payoff / features / hedge, error kinds.
 """
 import math
 from fractions import Fraction as F
@@ -80,12 +83,313 @@ def _ulp_eps(t, T, dt):
 
 
 # ---------------------------------------------------------------------------------------------------------------------------
+# histories of OBJECTS against the model of the grid over a system of instruments (Model/GridSys.lean, op "grid_sys"): every
+# primary and derivative a section creates is given an index, every operation the section performs is recorded as a command,
+# and after each simulation the real objects are asked what the model is asked: which primary an accessor returns (index =
+# object identity), the shapes of all buffers of ALL primaries of the history (the replaced ones keep their old paths), the shapes
+# of time to maturity / payoff / features / hedge, or the kind of the exception.  The model runs twice: with the exact step count
+# on rationals ("exact": the property's reading - a horizon within rounding distance of k*dt is sent as k*dt, the policy of
+# expected_points) and with the shipped double formula ("float": the code's reading); both must agree with the objects.
+
+KIND = {"BrownianStock": "flat", "MertonJumpStock": "flat", "KouJumpStock": "flat", "HestonStock": "stochVar",
+        "RoughBergomiStock": "stochVar", "LocalVolatilityStock": "localVol", "CIRRate": "rate", "VasicekRate": "rate"}
+
+
+def exact_horizon(m, dts):
+    """the rational the exact run takes for a horizon m used with step sizes dts: m itself, or k*dt where m/dt is within rounding
+    distance of the integer k (the clause of the property, same bands as expected_points).  None: the property accepts two counts
+    there, or step sizes of one derivative call for different readings"""
+    vals = set()
+    for dt in dts:
+        ratio = F(m) / F(dt)
+        near = round(ratio)
+        dist = abs(ratio - near)
+        if dist <= F(1, 10 ** 12) * max(1, abs(near)):
+            vals.add(near * F(dt))
+        elif dist <= F(1, 10 ** 7) * max(1, abs(near)):
+            return None
+        else:
+            vals.add(F(m))
+    if not vals:
+        return F(m)
+    return vals.pop() if len(vals) == 1 else None
+
+
+class GTrace:
+    """mirror of one history of real objects, replayed by the op "grid_sys" """
+
+    def __init__(self, case, section):
+        self.case, self.section = case, section
+        self.P, self.D = [], []            # (object, json) of primaries / derivatives
+        self.cmds, self.obs = [], []       # commands and what the real objects answered (None for operations)
+        self.exact_ok = True
+        self.regs = {}                     # derivative index -> current registry as the harness performed it (name -> primary object)
+
+    def pidx(self, p):
+        for i, (o, _) in enumerate(self.P):
+            if o is p:
+                return i
+        import torch
+        dt_ = p.dtype
+        dts = None if dt_ is None else {torch.float64: "f64", torch.float32: "f32"}[dt_]
+        self.P.append((p, [KIND[type(p).__name__], dts, [rat_str(F(p.dt)), float_bits(p.dt)]]))
+        return len(self.P) - 1
+
+    def didx(self, d):
+        for i, (o, _) in enumerate(self.D):
+            if o is d:
+                return i
+        raise KeyError("derivative not in trace")
+
+    def scal(self, m, dts):
+        ex = exact_horizon(m, dts)
+        if ex is None:
+            self.exact_ok = False
+            ex = F(m)
+        return [rat_str(ex), float_bits(m)]
+
+    def deriv(self, d, regs, mixin, pay="ul0", pk="arith", pricer=None):
+        """regs: [(name, primary object)] in the order __init__ registers them"""
+        k = len(self.D)
+        self.regs[k] = dict(regs)
+        self.D.append((d, {"maturity": self.scal(d.maturity, [p.dt for _, p in regs]),
+                           "regs": [[n, self.pidx(p)] for n, p in regs], "mixin": mixin, "pay": pay, "pk": pk, "pricer": pricer}))
+        return k
+
+    def op(self, *cmd):
+        self.cmds.append(list(cmd))
+        self.obs.append(None)
+
+    def assign(self, d, name, p, route="assign"):
+        k = self.didx(d)
+        self.op(route, k, name, self.pidx(p))
+        self.regs[k][name] = p
+
+    def deriv_sim(self, d, n_paths):
+        """the maturity the object has NOW goes with the simulation (exact run: read against the step sizes of the current registry)"""
+        k = self.didx(d)
+        self.op("set_maturity", k, self.scal(d.maturity, [p.dt for p in self.regs[k].values()]))
+        self.op("deriv_sim", k, n_paths)
+
+    def prim_sim(self, p, n_paths, horizon):
+        self.op("prim_sim", self.pidx(p), n_paths, self.scal(horizon, [p.dt]))
+
+    def ask(self, query, fn, conv, float_only=False):
+        """fn: the call on the real objects; conv: its value -> the model's answer format"""
+        try:
+            got = conv(fn())
+        except Exception as e:  # noqa
+            got = {"err": canon_error(e)}
+        self.cmds.append(["ask", query])
+        self.obs.append((got, float_only))
+
+    def request(self):
+        return {"op": "grid_sys", "ambient": "f32", "prims": [j for _, j in self.P], "derivs": [j for _, j in self.D], "cmds": self.cmds}
+
+
+def _shape(t):
+    return {"shape": list(t.shape)}
+
+
+def gs_observe(tr, d, feats, hedge_cfgs=(), names=("underlier",), listed=False, pay_names=None, singles=()):
+    """ask the real objects what the model is asked (no random numbers are consumed)"""
+    import torch
+    from pfhedge.nn import Hedger, Naked
+    from pfhedge.features import FeatureList, get_feature
+    k = tr.didx(d)
+    prim = lambda fn: (fn, lambda p: {"prim": tr.pidx(p)})    # noqa
+    tr.ask(["underliers", k], lambda: list(d.underliers()), lambda l: {"prims": [tr.pidx(p) for p in l]})
+    tr.ask(["ul", k, 0], *prim(lambda: d.ul()))
+    tr.ask(["ul", k, 1], *prim(lambda: d.ul(1)))
+    for n in names:
+        tr.ask(["attr", k, n], *prim(lambda n=n: getattr(d, n)))
+        tr.ask(["get_underlier", k, n], *prim(lambda n=n: d.get_underlier(n)))
+    for i in range(len(tr.P)):
+        p = tr.P[i][0]
+        tr.ask(["buffers", i], lambda p=p: [[n_, list(b.shape)] for n_, b in p.named_buffers()], lambda l: {"bufs": l})
+    with torch.no_grad():
+        tr.ask(["ttm", k], lambda: d.time_to_maturity(None), _shape)
+        if getattr(getattr(d, "underlier", None), "dtype", None) == torch.float64:
+            tr.ask(["ttm_values", k], lambda: d.time_to_maturity(None)[0].tolist(), lambda l: {"values": enc_flt(l)}, float_only=True)
+        if pay_names is not None:
+            tr.ask(["payoff_inputs", k], lambda: [list(d.get_underlier(n).spot.shape) for n in pay_names], lambda l: {"shapes": l})
+        tr.ask(["payoff", k], lambda: d.payoff(), _shape)
+        for f in singles:
+            tr.ask(["feature", k, f], lambda f=f: get_feature(f).of(d).get(None), _shape)
+        if feats:
+            tr.ask(["features", k, feats], lambda: FeatureList(feats).of(d).get(None), _shape)
+        for fs, hedge, hj in hedge_cfgs:
+            nh = len(hedge) if hedge is not None else len(list(d.underliers()))
+            tr.ask(["hedge", k, {"model": "naked", "feats": fs, "hedge": hj}],
+                   lambda fs=fs, hedge=hedge, nh=nh: Hedger(Naked(max(nh, 1)), fs).compute_hedge(d, hedge=hedge), _shape)
+        if listed:
+            tr.ask(["listed", k], lambda: d.spot, _shape)
+            tr.ask(["feature", k, "spot"], lambda: get_feature("spot").of(d).get(None), _shape)
+
+
+def _gs_norm(r):
+    if "err" in r:
+        return {"err": {"index_error": "runtime_error"}.get(r["err"], r["err"])}
+    return r
+
+
+def gs_compare(ctx, traces):
+    """send the recorded histories to the model and compare every answer exactly"""
+    if not traces:
+        return
+    try:
+        outs = ctx.driver([tr.request() for tr in traces])
+    except DriverBroken as e:
+        ctx.ties_broken.append({"kind": "driver", "detail": str(e)[:1500]})
+        return
+    for tr, mo in zip(traces, outs):
+        ctx.stats[f"grid_sys:{tr.section}"] += 1
+        ctx.stats[f"grid_sys:exact_run_compared={tr.exact_ok}"] += 1
+        for run in ("float", "exact"):
+            if run == "exact" and not tr.exact_ok:
+                continue
+            res = mo[run]
+            if "ok" not in res["init"] or len(res["steps"]) != len(tr.cmds):
+                ctx.disagree("grid_sys", tr.case | {"run": run}, "constructed", res["init"])
+                continue
+            for i, (cmd, ob, ans) in enumerate(zip(tr.cmds, tr.obs, res["steps"])):
+                ans = _gs_norm(ans)
+                if ob is None:
+                    if ans != {"done": True}:
+                        ctx.disagree("grid_sys", tr.case | {"run": run, "at": i, "cmd": cmd}, "done", ans)
+                        break
+                    continue
+                got, float_only = ob
+                if float_only and run != "float":
+                    continue
+                ctx.stats["grid_sys:answers"] += 1
+                if "err" in got:
+                    ctx.stats[f"grid_sys:{cmd[1][0]}:{got['err']}"] += 1
+                if got != ans:
+                    ctx.disagree("grid_sys", tr.case | {"run": run, "at": i, "cmd": cmd, "ops": [c for c in tr.cmds[:i] if c[0] != "ask"]},
+                                 got, ans)
+                    break
+
+
+# ---------------------------------------------------------------------------------------------------------------------------
+# histories the sections below do not produce: underliers of DIFFERENT step sizes under one derivative (built-in option with a second
+# underlier added by attribute assignment, user derivatives with and without OptionMixin whose registry does or does not start
+# with the name `underlier`), several owners of one primary, maturities changed without a new simulation, primaries simulated
+# directly, accessors and results asked BEFORE the next simulation (a replaced-in underlier without paths, stale paths of the others).
+# No predicate of its own: with different step sizes there is no single grid; what the objects answer (shapes or the kind of the
+# exception: AttributeError, ValueError "spot prices of the hedges must have the same size", RuntimeError of torch.cat) is
+# compared with the model.
+
+def check_mixed_histories(ctx, torch, I, g, gtraces):
+    from pfhedge.instruments import BaseDerivative
+    from pfhedge.instruments.derivative.base import OptionMixin
+
+    class Pair(BaseDerivative):
+        def __init__(self, regs, pay, maturity):
+            super().__init__()
+            for n_, p_ in regs:
+                self.register_underlier(n_, p_)
+            self.maturity = maturity
+            self.strike = 1.0
+            self.pay = tuple(pay)
+
+        def payoff_fn(self):
+            a, b = (self.get_underlier(n_).spot[..., -1] for n_ in self.pay)
+            return torch.relu(a - b)
+
+    class PairOption(Pair, OptionMixin):
+        pass
+
+    MP = ["BrownianStock", "HestonStock", "MertonJumpStock", "KouJumpStock", "LocalVolatilityStock", "CIRRate"]
+    MDT = [1 / 250, 1 / 12, 0.1, 0.01, 1 / 52]
+    ALLF = ["moneyness", "log_moneyness", "max_moneyness", "time_to_maturity", "underlier_spot", "volatility", "variance", "zeros"]
+    for it in range(40 if ctx.tier == "quick" else 500):
+        base_dt = g.choice(MDT)
+        prims = []
+        for _ in range(g.choice([2, 3, 3])):
+            dt = base_dt if g.chance(0.35) else g.choice(MDT)
+            prims.append(make_primary(I, torch, g.choice(MP), dt, g.choice([None, None, torch.float64])))
+        case = {"mixed_history": True, "primaries": [[type(p).__name__, p.dt] for p in prims], "derivatives": [], "steps": []}
+        tr = GTrace(case, "mixed_history")
+        gtraces.append(tr)
+        for p in prims:
+            tr.pidx(p)
+        ders = []
+        for _ in range(g.choice([1, 2])):
+            kind = g.choice(["option", "option", "pair", "pair_option_u1", "pair_option_u2"])
+            a, b = g.choice(prims), g.choice(prims)
+            m0 = (g.randint(1, 12) + g.choice([0, 0, 0.5])) * a.dt
+            if kind == "option":
+                d = getattr(I, g.choice(OPTS))(a, maturity=m0)
+                regs, pay, mixin, pn = [("underlier", a)], None, True, None
+                pk = "arith" if type(d).__name__ in ("EuropeanOption", "LookbackOption") else "indicator"
+            else:
+                names = {"pair": ("first", "second"), "pair_option_u1": ("underlier", "second"), "pair_option_u2": ("first", "underlier")}[kind]
+                regs = [(names[0], a), (names[1], b)]
+                d = (Pair if kind == "pair" else PairOption)(regs, names, m0)
+                pay, mixin, pn, pk = ["named", names[0], names[1]], kind != "pair", names, "arith"
+            tr.deriv(d, regs, mixin, pay="ul0" if pay is None else pay, pk=pk)
+            ders.append((d, pn, kind))
+            case["derivatives"].append({"kind": kind, "underliers": [[n_, prims.index(p_)] for n_, p_ in regs], "maturity": m0})
+        ctx.case(case, True, tag="mixed_history")
+        ctx.traces += 1
+
+        def observe():
+            for d_, pn_, kind_ in ders:
+                fs = [g.choice(ALLF) for _ in range(g.choice([2, 3]))]
+                hp = g.choice(prims)
+                gs_observe(tr, d_, fs, names=("underlier", "first", "second"), pay_names=pn_, singles=ALLF,
+                           hedge_cfgs=[(fs, None, None), (fs, [hp], [["prim", tr.pidx(hp)]])])
+
+        for _ in range(g.choice([3, 4, 5, 6])):
+            d, pn, kind = g.choice(ders)
+            k = tr.didx(d)
+            what = g.weighted([("deriv_sim", 5), ("assign", 3), ("register", 1), ("maturity", 2), ("prim_sim", 2)])
+            ctx.stats[f"mixed_history:{what}"] += 1
+            if what == "deriv_sim":
+                n_ = g.choice([1, 2, 3])
+                st, v, _ = call_impl(d.simulate, n_paths=n_)
+                case["steps"].append({"simulate": k, "n_paths": n_, "maturity": d.maturity})
+                if st != "ok":
+                    ctx.fail("derivative.simulate raised", case, key="mixed-history:simulate:raise", detail=v)
+                    break
+                tr.deriv_sim(d, n_)
+                observe()
+            elif what in ("assign", "register"):
+                name = g.choice(["underlier", "first", "second"] if kind != "option" else ["underlier", "underlier", "second"])
+                p = g.choice(prims)
+                case["steps"].append({what: k, "name": name, "primary": prims.index(p)})
+                if what == "assign":
+                    setattr(d, name, p)
+                else:
+                    d.register_underlier(name, p)
+                tr.assign(d, name, p, what)
+                if g.chance(0.5):
+                    observe()
+            elif what == "maturity":
+                p = g.choice(prims)
+                d.maturity = (g.randint(0, 12) + g.choice([0, 0, 0.25])) * p.dt           # (M = 0: a single time point)
+                case["steps"].append({"maturity": k, "value": d.maturity})
+                tr.op("set_maturity", k, tr.scal(d.maturity, [p_.dt for p_ in tr.regs[k].values()]))
+            else:
+                p = g.choice(prims)
+                n_, hz = g.choice([1, 2, 4]), g.randint(1, 12) * p.dt
+                st, v, _ = call_impl(p.simulate, n_paths=n_, time_horizon=hz)
+                case["steps"].append({"simulate_primary": prims.index(p), "n_paths": n_, "time_horizon": hz})
+                if st != "ok":
+                    ctx.fail("primary.simulate raised", case, key="mixed-history:simulate:raise", detail=v)
+                    break
+                tr.prim_sim(p, n_, hz)
+                observe()
+
+
+# ---------------------------------------------------------------------------------------------------------------------------
 # object re-use: the underlier of an EXISTING derivative is replaced (derivative.underlier = other_primary, or register_underlier
 # under the same name), optionally together with a new maturity, and the derivative is simulated again: every primary the derivative
 # reaches as its underlier (registry, ul(), the attribute) is on the grid of the current maturity, and time to maturity, payoff,
 # features and hedges live on that one grid
 
-def check_replace_underlier(ctx, torch, I, g):
+def check_replace_underlier(ctx, torch, I, g, gtraces):
     from pfhedge.nn import Hedger, Naked
     from pfhedge.features import FeatureList
     RP = [x for x in PRIMS if x != "VasicekRate"]
@@ -95,10 +399,14 @@ def check_replace_underlier(ctx, torch, I, g):
         k0 = g.randint(1, 30)
         d = getattr(I, opt)(make_primary(I, torch, p0n, dt0, None), maturity=k0 * dt0)
         case = {"replace_underlier": True, "option": opt, "primary": p0n, "dt": dt0, "maturity": k0 * dt0, "history": []}
+        tr = GTrace(case, "replace_underlier")
+        gtraces.append(tr)
+        tr.deriv(d, [("underlier", d.ul())], True, pk="arith" if opt in ("EuropeanOption", "LookbackOption") else "indicator")
         if g.chance(0.7):
             n0 = g.choice([1, 2, 3])
             d.simulate(n_paths=n0)
             case["history"].append({"simulate": n0})
+            tr.deriv_sim(d, n0)
         routes = []
         for r in range(g.choice([1, 1, 2, 3])):
             pn, dtn = g.choice(RP), g.choice(DTS)
@@ -109,6 +417,7 @@ def check_replace_underlier(ctx, torch, I, g):
                 hz, npre = g.randint(1, 30) * dtn, g.choice([1, 2, 4])
                 new.simulate(n_paths=npre, time_horizon=hz)
                 step["pre_simulated"] = {"time_horizon": hz, "n_paths": npre}
+                tr.prim_sim(new, npre, hz)
             route = g.weighted([("assign", 5), ("register", 1)])
             routes.append(route)
             step["route"] = route
@@ -116,6 +425,7 @@ def check_replace_underlier(ctx, torch, I, g):
                 d.underlier = new
             else:
                 d.register_underlier("underlier", new)
+            tr.assign(d, "underlier", new, route)
             keep = g.chance(0.3) and d.maturity / dtn <= 40
             if not keep:
                 d.maturity = (g.randint(1, 30) + g.choice([0, 0, 0, 0.5, 0.25])) * dtn
@@ -129,6 +439,9 @@ def check_replace_underlier(ctx, torch, I, g):
             if st != "ok":
                 ctx.fail("simulate raised on a derivative whose underlier was replaced", case, key="replace-underlier:raise", detail=v)
                 break
+            tr.deriv_sim(d, n1)
+            gfe = ["moneyness", "time_to_maturity"] + ([] if pn in RATES else ["volatility"])
+            gs_observe(tr, d, gfe, hedge_cfgs=[(gfe, None, None)], singles=["moneyness", "underlier_spot", "volatility", "max_moneyness"])
             # a re-registration after an attribute assignment is kept apart (the attribute then hides the registry)
             mixed = route == "register" and "assign" in routes[:-1]
             mk = (lambda key: "replace-underlier:register-after-assignment") if mixed else (lambda key: key)   # noqa
@@ -313,6 +626,7 @@ def check(ctx):
     ctx.lean_gate()
     n = 1500 if ctx.tier == "quick" else 8000
     reqs, meta = [], []
+    gtraces = []
     torch.manual_seed(ctx.seed % (2 ** 31))
     for it in range(n):
         m, dt, form, k = gen_grid(g)
@@ -396,6 +710,9 @@ def check(ctx):
         ctx.case(case, True, tag="multi_underlier")
         ctx.traces += 1
         replaced = None
+        tr = GTrace(case, "multi_underlier")
+        gtraces.append(tr)
+        tr.deriv(sp, [("first", a_), ("second", b_)], False, pay=["named", "first", "second"])
         for kk in (k1, k2):
             if kk is k2 and g.chance(0.6):
                 # object re-use: one underlier of the EXISTING derivative is replaced by attribute assignment (same step size)
@@ -403,11 +720,16 @@ def check(ctx):
                 pn = g.choice(PRIMS[:3] + PRIMS[4:6])
                 setattr(sp, replaced, make_primary(I, torch, pn, dtm, None))
                 case = case | {"replaced_by_assignment": {replaced: pn}}
+                tr.case = case
+                tr.assign(sp, replaced, getattr(sp, replaced))
             sp.maturity = kk * dtm
             st, v, _ = call_impl(sp.simulate, n_paths=2)
             if st != "ok":
                 ctx.fail("simulate of a two-underlier derivative raised", case, key="simulate:multi-underlier:error", detail=v)
                 break
+            tr.deriv_sim(sp, 2)
+            gs_observe(tr, sp, ["underlier_spot", "zeros"], hedge_cfgs=[(["underlier_spot"], None, None)], names=("first", "second", "underlier"),
+                       pay_names=("first", "second"), singles=["moneyness", "volatility"])
             want = expected_points(kk * dtm, dtm)
             try:
                 shapes = [tuple(u_.spot.shape) for u_ in sp.underliers()]
@@ -515,6 +837,11 @@ def check(ctx):
         case = {"listed_hedge": True, "primary": prim, "dt": dt, "listed_maturity": k0 * dt, "other_maturity": k1 * dt, "sequence": []}
         ctx.case(case | {"sequence": seq}, True, tag="listed_hedge")
         ctx.traces += 1
+        tr = GTrace(case, "listed_hedge")
+        gtraces.append(tr)
+        for dd_ in (listed, other):
+            tr.deriv(dd_, [("underlier", p)], True, pricer="spot" if dd_ is listed else None,
+                     pk="arith" if type(dd_).__name__ in ("EuropeanOption", "LookbackOption") else "indicator")
         for route in seq:
             n_paths = g.choice([1, 2, 3])
             if route == "underlier":
@@ -530,6 +857,14 @@ def check(ctx):
             if st != "ok":
                 ctx.fail("simulate raised", case, key=f"simulate:{prim}:raise", detail=v)
                 break
+            if hedged is None:
+                tr.prim_sim(p, n_paths, mat)
+            else:
+                tr.deriv_sim(hedged, n_paths)
+            for dd_ in (listed, other):
+                gs_observe(tr, dd_, ["time_to_maturity", "moneyness"], listed=dd_ is listed,
+                           hedge_cfgs=[(["time_to_maturity"], [listed], [["deriv", 0]]), (["time_to_maturity", "prev_hedge"], [listed], [["deriv", 0]]),
+                                       (["moneyness", "spot"] if dd_ is listed else ["moneyness"], None, None)])
             want = expected_points(mat, dt)
             T = p.spot.size(1)
             if tuple(p.spot.shape) != (n_paths, T) or T not in want:
@@ -575,7 +910,8 @@ def check(ctx):
                 ctx.fail("a hedge computed with a listed derivative as the hedging instrument is not on the grid of the derivative just simulated",
                          case, key="listed:hedge-grid", detail=bad)
                 break
-    check_replace_underlier(ctx, torch, I, g)
+    check_replace_underlier(ctx, torch, I, g, gtraces)
+    check_mixed_histories(ctx, torch, I, g, gtraces)
     freqs, fmeta = [], []
     check_feature_steps(ctx, torch, I, g, freqs, fmeta)
     # ---------- time_to_maturity replica (float64 instruments: bit-exact)
@@ -594,6 +930,7 @@ def check(ctx):
             ats.append((st, float(v[0, 0]) if st == "ok" else v, tuple(v.shape) if st == "ok" else None))
         treqs.append({"op": "ttm", "n": T, "dt": float_bits(dt), "idx": idx})
         tmeta.append((T, dt, idx, allv, ats))
+    gs_compare(ctx, gtraces)
     try:
         outs = ctx.driver(reqs)
         touts = ctx.driver(treqs + freqs)
@@ -642,4 +979,8 @@ def check(ctx):
              "new maturity) and simulated again: every reachable underlier, time to maturity, payoff, features, hedge on the new grid; "
              "every feature (13 named ones, Ones, UnderlierLogSpot, Barrier up/down, Spot of a listed derivative) at steps 0, T-1, -1, -2, -T "
              "and random ones vs column i of the all-steps value, FeatureList.get / Hedger.get_input (random lists, Black-Scholes inputs) "
-             "at the same steps; every case is non-trivial (T>=2 for ttm); distinct = sha1 of canonical case")
+             "at the same steps; the histories of the object sections plus mixed histories (2-3 primaries of different dt, built-in options / user "
+             "derivatives with and without OptionMixin, registry order first/underlier, assignments, registrations, maturity changes incl. M = 0, "
+             "simulations through either owner or the primary) replayed by the model op grid_sys on exact rationals and on doubles: accessors by "
+             "object identity, all buffer shapes, ttm / payoff / features / hedge shapes or error kinds compared exactly; "
+             "every case is non-trivial (T>=2 for ttm); distinct = sha1 of canonical case")
